@@ -107,7 +107,26 @@ def make_interp(ctx):
                 return None
             return Opaque(f'file.{name}')
         if isinstance(base, EncodedText) and name == 'decode':
-            return base.text
+            # the bytes are latin-1 text: a single-byte codec gives the characters back; a stricter codec (ascii, utf-8)
+            # refuses the bytes above 0x7f - unless told to drop or replace them, which changes the text
+            codec = args[0] if args else kwargs.get('encoding', 'utf-8')
+            errors = args[1] if len(args) > 1 else kwargs.get('errors', 'strict')
+            if not isinstance(codec, str) or not isinstance(errors, str):
+                return Opaque('decode with a symbolic codec')
+            lit = [s for s in ([base.text] if isinstance(base.text, str) else base.text.segs) if isinstance(s, str)]
+            high = any(ord(ch) > 0x7f for s in lit for ch in s)
+            c_ = codec.lower().replace('_', '-')
+            if c_ in ('latin1', 'latin-1', 'iso-8859-1', 'iso8859-1', 'l1', '8859', 'cp819', 'latin') or not high:
+                return base.text
+            if c_ not in ('ascii', 'us-ascii', 'utf-8', 'utf8'):
+                return Opaque(f'decode({codec})')
+            if errors == 'strict':
+                raise AbsRaise('UnicodeDecodeError', node, implicit=True)
+            conv = (lambda ch: '') if errors == 'ignore' else (lambda ch: '\ufffd')
+            fix = lambda s_: ''.join(ch if ord(ch) <= 0x7f else conv(ch) for ch in s_)      # noqa: E731
+            if isinstance(base.text, str):
+                return fix(base.text)
+            return strdom.norm(strdom.SStr([fix(s_) if isinstance(s_, str) else s_ for s_ in base.text.segs]))
         if isinstance(base, EncodedText) and name == 'startswith' and len(args) == 1 and isinstance(args[0], (bytes, bytearray)) and len(args[0]) == 1:
             if base.absint_len() == 0:
                 return False
@@ -229,7 +248,9 @@ def r19_text_layouts(ctx):
             ok = got == want
         ctx.require(ok, 'R19.2', f'read(text {name})', w, f'{text!r} reads as {got if got is not None else outs}, expected {want}',
                     construct=f'{rd.qname}::text-layout')
-    for name, text in {'odd-digits': 'F0 1 F7', 'not-hex': 'F0 0G F7', 'word': 'hello', 'three-digits': 'F0 001 F7 0'}.items():
+    for name, text in {'odd-digits': 'F0 1 F7', 'not-hex': 'F0 0G F7', 'word': 'hello', 'three-digits': 'F0 001 F7 0',
+                       'byte-above-7f-at-the-end': 'F0 01 02 F7 \xe9', 'byte-above-7f-inside-a-pair': 'F0 01 0\xff2 F7',
+                       'only-bytes-above-7f': '\n\xe9\xe9\n'}.items():
         ai = make_interp(ctx)
         ai.fs['t.syx'] = {'mode': 'w', 'chunks': [text]}
         outs = ai.explore(lambda: ai.call_function(rd, ['t.syx'], {}))
